@@ -2,9 +2,11 @@ package e1
 
 import (
 	"bytes"
+	"encoding/json"
 	"fmt"
 
 	"github.com/polynetwork/poly/common"
+	"github.com/polynetwork/poly/core/store"
 	"github.com/polynetwork/poly/core/store/ledgerstore"
 	"github.com/polynetwork/poly/core/types"
 	"github.com/polynetwork/poly/merkle"
@@ -123,6 +125,26 @@ func (s *Sim) commitBlock(m *Model, nonce uint64) bool {
 		run.Probe("block_mixing_success_and_failure")
 	}
 	s.LastTrace = bt
+	// C16: the same block on the same prior state, executed repeatedly (fresh Go map iteration
+	// orders each time) and on every replica, yields the same results
+	reps := int(run.Plan.C("reexec", 2))
+	for i := 0; i < reps; i++ {
+		nd := s.Nodes[i%len(s.Nodes)]
+		if int(nd.Height())+1 != int(blk.Header.Height) {
+			continue
+		}
+		nd.Use()
+		r2, err := nd.L.ExecuteBlock(blk)
+		if err != nil {
+			run.Fail("C16", "re-execution-failed", "block %d on %s: %v", blk.Header.Height, nd.Name, err)
+			break
+		}
+		if d := diffResults(&full, &r2); d != "" {
+			run.Fail("C16", "re-execution-differs", "block %d re-executed on %s from the same prior state differs: %s", blk.Header.Height, nd.Name, d)
+			break
+		}
+		run.Probe("re_execution_compared")
+	}
 	res, err := prod.Produce(blk)
 	if err != nil {
 		if s.badSince > 0 {
@@ -347,6 +369,10 @@ func init() {
 		def{"C25", base + "oracle: per message / signed subject the set of distinct voters; only pre-state consensus validators may vote; released / quorum event exactly at the first vote reaching ceil(2N/3) distinct current validators and never again", map[string]int{"import": 8, "sig": 6, "chain": 3, "cand": 2, "node": 2, "priv": 1, "relayer": 0}, []string{"vote_threshold_reached_exactly", "vote_after_release", "sig_quorum_emitted", "sig_after_quorum", "vote_by_non_validator_rejected"}},
 		def{"C08", base + "oracle: for every committed block and every replica, each request record written by the block has a served proof that verifies (merkle.MerkleProve) against the block's committed cross-state root to exactly the stored record, the next header carries that root, and for every ph<h the served block proof verifies against header h's block root to block ph's hash", map[string]int{"import": 14, "chain": 3, "cand": 1, "node": 1, "priv": 1, "relayer": 0, "burst": 1}, []string{"cross_proof_verified", "block_proof_verified"}},
 	)
+	defs = append(defs,
+		def{"C16", base + "oracle: every block is executed again on the producer and on each replica (and again for the commit): write set, state-change digest, state root, cross-state root, cross hashes and events must be identical; replicas' stored state roots must equal the producer's for every height. (The wall-clock clause is exercised by the light-client checks; governance contracts read no clock.)", map[string]int{"reexec": 6}, []string{"re_execution_compared", "epoch_change", "import_released"}},
+		def{"C17", base + "oracle: every key written by every transaction lies under the contract-storage prefix of a registered native contract (never a ledger bookkeeping key), and no written key of the governance / registry / relayer / cross-chain-manager / signature contracts can be read as two different record kinds of its contract (key-layout attribution of the keys actually produced)", nil, []string{"key_attributed"}},
+	)
 	for _, d := range defs {
 		d := d
 		kernel.Register(&kernel.Check{ID: d.id, Level: "exploration", Engine: "E1 cluster", Rule: d.rule, Real: e1Real, Stub: e1Stub,
@@ -355,6 +381,9 @@ func init() {
 			RequiredProbes: d.probes,
 			Generate: func(rng *kernel.RNG, idx int, tier string) *kernel.Plan {
 				pl := govPlan(rng, tier, d.w, extras[d.id])
+				if d.w["reexec"] > 0 {
+					pl.Cfg["reexec"] = int64(d.w["reexec"])
+				}
 				if d.w["strict"] > 0 && rng.Chance(0.5) {
 					pl.Cfg["net"], pl.Cfg["legacyheight"] = 1, 0
 				}
@@ -362,4 +391,35 @@ func init() {
 			},
 			Execute:        execGov})
 	}
+}
+
+// diffResults compares two executions of a block field by field ("" = identical).
+func diffResults(a, b *store.ExecuteResult) string {
+	switch {
+	case a.Hash != b.Hash:
+		return fmt.Sprintf("state-change digest %x vs %x", a.Hash, b.Hash)
+	case a.CrossStatesRoot != b.CrossStatesRoot:
+		return fmt.Sprintf("cross-state root %x vs %x", a.CrossStatesRoot, b.CrossStatesRoot)
+	case a.MerkleRoot != b.MerkleRoot:
+		return fmt.Sprintf("state root %x vs %x", a.MerkleRoot, b.MerkleRoot)
+	case len(a.CrossHashes) != len(b.CrossHashes) || len(a.Notify) != len(b.Notify):
+		return "number of cross hashes or notifications"
+	}
+	for i := range a.CrossHashes {
+		if a.CrossHashes[i] != b.CrossHashes[i] {
+			return fmt.Sprintf("cross hash %d", i)
+		}
+	}
+	wa, wb := wsMap(a.WriteSet), wsMap(b.WriteSet)
+	if d := chain.DiffMaps("write set", wa, wb); len(d) > 0 {
+		return fmt.Sprint(d)
+	}
+	for i := range a.Notify {
+		ja, _ := json.Marshal(a.Notify[i])
+		jb, _ := json.Marshal(b.Notify[i])
+		if !bytes.Equal(ja, jb) {
+			return fmt.Sprintf("events of tx %d: %s vs %s", i, ja, jb)
+		}
+	}
+	return ""
 }
